@@ -1,0 +1,71 @@
+//go:build verif
+
+package type1
+
+// Machine-checked contracts for package type1 (read by /verif/govc only;
+// never compiled into a normal build).
+
+// glyphOpWF: every stored path command carries the number of coordinates its
+// type needs.
+func glyphOpWF(c GlyphOp) bool {
+	switch c.Op {
+	case OpMoveTo, OpLineTo:
+		return len(c.Args) == 2
+	case OpCurveTo:
+		return len(c.Args) == 6
+	}
+	return true
+}
+
+// glyphPtrWF: glyph tables never hold nil glyphs.
+func glyphPtrWF(g *Glyph) bool {
+	return g != nil
+}
+
+func peekReaderWF(r *peekReader) bool {
+	return r.r != nil
+}
+
+//@ valueinv GlyphOp glyphOpWF zero-safe
+//@ valueinv *Glyph glyphPtrWF
+//@ typeinv peekReader peekReaderWF
+
+//@ sweep C01 read.go t1decode.go peekreader.go
+
+//@ func peek
+//@ requires r != nil && 0 <= n && n <= 65536
+//@ ensures result2 == nil ==> result1 != nil
+
+// seacsIn: every recorded seac belongs to a glyph that has been stored.
+//@ define seacsIn(ctx, glyphs) = forall j :: 0 <= j && j < len(ctx.seacs) ==> has(glyphs, ctx.seacs[j].name) && glyphs[ctx.seacs[j].name] != nil
+
+//@ func Read
+//@ requires r != nil
+//@ loop 9 invariant ctx != nil && glyphs != nil && seacsIn(ctx, glyphs)
+//@ loop 10 invariant ctx != nil && glyphs != nil && seacsIn(ctx, glyphs)
+//@ loop 11 invariant ctx != nil && glyphs != nil && g != nil
+
+//@ func deobfuscateCharstring
+//@ safety C01
+
+//@ func getInt
+//@ arith fp
+//@ ensures result1 == nil ==> -9223372036854775808 <= result0 && result0 <= 9223372036854774784
+
+//@ func invalidSince
+//@ safety C01
+//@ ensures result != nil
+
+// seacsGrow: decodeCharString only appends seac records, all carrying the
+// name of the glyph being decoded.
+//@ define seacsGrow(info, name) = len(info.seacs) >= old(len(info.seacs)) &&
+//@   (forall j :: 0 <= j && j < old(len(info.seacs)) ==> info.seacs[j].name == old(info.seacs[j].name)) &&
+//@   (forall j :: old(len(info.seacs)) <= j && j < len(info.seacs) ==> info.seacs[j].name == name)
+
+//@ func (*decodeInfo).decodeCharString
+//@ requires info != nil
+//@ ensures result1 == nil ==> result0 != nil
+//@ ensures seacsGrow(info, name)
+//@ loop 1 invariant len(cmdStack) <= 10 && len(stack) <= 25 && seacsGrow(info, name)
+//@ loop 2 invariant len(cmdStack) <= 10 && len(stack) <= 25 && seacsGrow(info, name)
+//@ loop 3 invariant 0 <= i && len(stack) >= argN - i && len(stack) <= 25 && seacsGrow(info, name)
